@@ -40,12 +40,22 @@ fn bound(b: &TypeParamBound) -> Value {
     }
 }
 
+/// the generic arguments written on the NAME of an associated type (`Gat<T> = ..`, `Gat<'a>: ..`)
+fn own_args(g: &Option<syn::AngleBracketedGenericArguments>) -> Value {
+    match g {
+        None => json!({"t": "noargs"}),
+        Some(x) => json!({"t": "angle", "args": x.args.iter().map(garg).collect::<Vec<_>>()}),
+    }
+}
+
 fn garg(g: &GenericArgument) -> Value {
     match g {
         GenericArgument::Type(t) => json!({"t": "argtype", "e": ty(t)}),
         GenericArgument::Lifetime(l) => json!({"t": "arglt", "lt": l.to_string()}),
-        GenericArgument::AssocType(a) => json!({"t": "assoc", "e": ty(&a.ty)}),
-        GenericArgument::Constraint(c) => json!({"t": "constraint", "bs": c.bounds.iter().map(bound).collect::<Vec<_>>()}),
+        GenericArgument::AssocType(a) => json!({"t": "assoc", "g": own_args(&a.generics), "e": ty(&a.ty)}),
+        GenericArgument::Constraint(c) => {
+            json!({"t": "constraint", "g": own_args(&c.generics), "bs": c.bounds.iter().map(bound).collect::<Vec<_>>()})
+        }
         GenericArgument::Const(_) | GenericArgument::AssocConst(_) => json!({"t": "argconst"}),
         _ => json!({"t": "argconst"}),
     }
